@@ -619,7 +619,12 @@ def run_relaxed_parameters(ctx, cases):
             else:
                 w = torch.tensor([float(k) for k in kk], dtype=_est.DT)
                 p = w / w.sum()
-                for how, dist in (("logits", GumbelOneHotCategorical(logits=w.log() + 0.75)), ("probs", GumbelOneHotCategorical(probs=w))):
+                variants = [("logits", GumbelOneHotCategorical(logits=w.log() + 0.75), p), ("probs", GumbelOneHotCategorical(probs=w), p)]
+                if len(kk) >= 3:  # a category ruled out through its logit (-inf): probability zero, the others renormalised
+                    w0 = w.clone()
+                    w0[1] = 0.0
+                    variants.append(("logits with a -inf entry", GumbelOneHotCategorical(logits=w0.log() - 0.5), w0 / w0.sum()))
+                for how, dist, p in variants:
                     eye = torch.eye(len(kk), dtype=_est.DT)
                     views = dict(probs=dist.probs, logits_softmax=dist.logits.softmax(-1), tlog_prob=dist.tlog_prob(eye).exp())
                     for name, got in views.items():
@@ -688,6 +693,10 @@ def _relaxed_objects(ctx):
         p = torch.tensor([k / 8 for k in kk], dtype=DT)
         objs.append(("LogisticBernoulli", "bern", len(kk), kk, 8, "probs", lambda p=p: LogisticBernoulli(probs=p)))
         objs.append(("LogisticBernoulli", "bern", len(kk), kk, 8, "logits", lambda p=p: LogisticBernoulli(logits=(p / (1 - p)).log())))
+    # logits of large magnitude (threshold probabilities down to e^-25: the improbable side must factorise too)
+    for lg in ([-25.0, 12.0], [25.0, -12.0, 0.5]):
+        t = torch.tensor(lg, dtype=DT)
+        objs.append(("LogisticBernoulli", "bern", len(lg), [int(x) for x in lg], 0, "extreme logits", lambda t=t: LogisticBernoulli(logits=t)))
     cat = [[1, 1], [1, 3], [1, 2, 5], [4, 3, 1], [2, 2, 2]] if ctx.quick else [[1, 1], [1, 3], [1, 2, 5], [4, 3, 1], [2, 2, 2], [1, 1, 1, 5], [6, 1, 1], [1, 6, 1], [1, 1, 6]]
     for kk in cat:
         w = torch.tensor([float(k) for k in kk], dtype=DT)
